@@ -5,19 +5,25 @@ import json
 import warnings
 
 import core
-from props import answers
+from props import answers, ccert
 
 THEOREMS = ["InfOCF.C05_main", "InfOCF.C05_base_iff", "InfOCF.C05_query_iff", "InfOCF.C05_accepts_iff_compiled",
             "InfOCF.C05_unfalsifiable", "InfOCF.C05_verifying_cost", "InfOCF.C05_falsifying_cost", "InfOCF.leastCost_famMin",
-            "InfOCF.min_famMin", "InfOCF.minimaEnc_iff", "InfOCF.minimaEnc_nil", "InfOCF.C08_P_le_C"]
+            "InfOCF.min_famMin", "InfOCF.minimaEnc_iff", "InfOCF.minimaEnc_nil", "InfOCF.C08_P_le_C", "InfOCF.C05_cert_sound",
+            "InfOCF.farkas_sound"]
 RULE = ("random strongly consistent bases (1-4 atoms, 1-5 conditionals; constants, duplicates, unfalsifiable conditionals, ties) x 6 queries "
         "through InferenceManager('c-inference'). For every answer a counter-model (a c-representation that does not accept the query) is "
         "searched twice independently: exhaustively in the cube [0..3]^k by the driver, and by z3 on the definitional constraint system "
         "over all worlds; every candidate is CHECKED by the driver (non-negative, accepts the base, rejects the query). An answer False "
-        "needs a certified counter-model, an answer True must have none; plus the sandwich p <= c <= W with both ends from the driver; "
+        "needs a certified counter-model, an answer True must have none AND gets a refutation certificate: for every choice of the "
+        "minimal sets in the compiled system a non-negative combination of its linear inequalities (multipliers found by z3 used as an "
+        "LP solver) which the driver checks with cCertCheck (theorem C05_cert_sound: accepted certificate => every c-representation "
+        "accepts the query); plus the sandwich p <= c <= W with both ends from the driver; "
         "non-trivial = contingent query on a base with >= 2 conditionals; distinct by (base, query)")
-ASSUMPTIONS = ["the direction 'answer True and no counter-model exists' rests on z3 reporting the definitional system unsatisfiable "
-               "(plus the exhaustive cube search); counter-models themselves are certified by the Lean driver"]
+ASSUMPTIONS = ["answers False: the counter-model is certified by the Lean driver; answers True: certified by a Lean-checked refutation "
+               "certificate (counted as true_certified); only for the answers counted as true_uncertified (more than 400 choice "
+               "combinations, or the multiplier search gave up) the direction 'True and no counter-model exists' rests on z3 reporting the "
+               "definitional system unsatisfiable plus the exhaustive cube search"]
 
 CUBE = 3
 
@@ -83,8 +89,8 @@ def driver_lines(case, impl):
     n = case["n"]
     D = core.conds_line(answers.keyed(case["base"]))
     Q = core.conds_line(answers.keyed(case["queries"]))
-    lines = [f"csearch {n} {CUBE} {D} {Q}", f"ans {n} 0 {D} {Q}"]
-    tags = ["cube", "ans"]
+    lines = [f"csearch {n} {CUBE} {D} {Q}", f"ans {n} 0 {D} {Q}", f"ctab {n} {D} {Q}"]
+    tags = ["cube", "ans", "ctab"]
     for i, w in enumerate(impl.get("witness") or []):
         if isinstance(w, list):
             q = case["queries"][i]
@@ -113,10 +119,17 @@ def compare(case, impl, resp, tags):
     per = per.split(" ")
     kind, rows = answers.decode(resp[tags.index("ans")], len(case["queries"]))
     certified = {}
+    cert_true, cert_cm = {}, {}
     for t, r in zip(tags, resp):
-        if isinstance(t, tuple):
+        if isinstance(t, tuple) and t[0] == "wit":
             isrep, acc, _pareto, _ranks = r.split("|")
             certified[t[1]] = (isrep == "1" and acc == "0")
+        elif isinstance(t, tuple) and t[0] == "cert":
+            cert_true[t[1]] = (r == "1")
+        elif isinstance(t, tuple) and t[0] == "certcm":
+            isrep, acc, _pareto, _ranks = r.split("|")
+            cert_cm[t[1]] = (isrep == "1" and acc == "0")
+    impl["cert_true"] = cert_true
     W = core.all_worlds(case["n"])
     for i, (q, a) in enumerate(zip(case["queries"], impl["answers"])):
         qk = answers.query_kind(case, q, W)
@@ -130,7 +143,10 @@ def compare(case, impl, resp, tags):
             if not a:
                 fail("answers False to a query whose falsification is unsatisfiable", a, True, i)
             continue
-        if a and (cube_cm or z3_cm):
+        if a and cert_cm.get(i) and not (cube_cm or z3_cm):
+            fail("answers True although a c-representation rejects the query",
+                 {"answer": a, "counter_model_impacts": impl["cert"][i]["eta"]}, False, i)
+        elif a and (cube_cm or z3_cm):
             cm = per[i][2:] if cube_cm else z3w
             fail("answers True although a c-representation rejects the query", {"answer": a, "counter_model_impacts": cm}, False, i)
         elif not a and not (cube_cm or z3_cm):
@@ -159,7 +175,48 @@ def evaluate(cases, procs):
         per.append((len(lines), len(ls), tags))
         lines += ls
     resp = core.driver_batch(lines)
-    return impls, [(resp[o:o + l], t) for o, l, t in per]
+    out = [(resp[o:o + l], t) for o, l, t in per]
+    # second round: refutation certificates for the answers True (multipliers from z3, check by the driver)
+    from check import pmap as _pmap
+
+    jobs = [(c, impl, r[t.index("ctab")]) for c, impl, (r, t) in zip(cases, impls, out) if "answers" in impl]
+    certs = _pmap(_cert_job, jobs, procs)
+    lines2, where = [], []
+    ci = 0
+    for idx, (c, impl) in enumerate(zip(cases, impls)):
+        if "answers" not in impl:
+            continue
+        cert = certs[ci]
+        ci += 1
+        impl["cert"] = {i: {k: v for k, v in x.items() if k != "pool"} for i, x in cert.items()}
+        D = core.conds_line(answers.keyed(c["base"]))
+        for i, x in cert.items():
+            q = c["queries"][i]
+            qp = core.cond_prefix(q[0], (q[1], q[2]))
+            if x["status"] == "ok":
+                lines2.append(f"ccert {c['n']} {D} 1 {qp} {ccert.pool_text(x['pool'])}")
+                where.append((idx, ("cert", i)))
+            elif x["status"] == "counter":
+                lines2.append(f"crep {c['n']} {D} 1 {qp} " + " ".join(str(v) for v in x["eta"]))
+                where.append((idx, ("certcm", i)))
+    resp2 = core.driver_batch(lines2)
+    for (idx, tag), r in zip(where, resp2):
+        out[idx][0].append(r)
+        out[idx][1].append(tag)
+    return impls, out
+
+
+def _cert_job(job):
+    case, impl, ctab_resp = job
+    rows, qfam = ccert.parse_ctab(ctab_resp)
+    res = {}
+    for i, a in enumerate(impl["answers"]):
+        if a and i < len(qfam) and qfam[i][1]:
+            try:
+                res[i] = ccert.build_cert(len(case["base"]), rows, qfam[i][0], qfam[i][1])
+            except Exception as e:  # noqa: BLE001
+                res[i] = {"status": "unknown", "pool": [], "choices": 0, "err": f"{type(e).__name__}: {e}"[:120]}
+    return res
 
 
 def recheck(case):
@@ -244,10 +301,18 @@ def run(ctx):
                     ctx.nontrivial.add(hash(json.dumps([c["base"], q[1:]])))
             per = resp[tags.index("cube")].split("|")[1].split(" ")
             ctx.bump("counter_models_in_cube", sum(1 for x in per if x.startswith("1")))
-            ctx.bump("counter_models_z3_certified", sum(1 for t, r in zip(tags, resp) if isinstance(t, tuple) and r.startswith("1|0")))
+            ctx.bump("counter_models_z3_certified", sum(1 for t, r in zip(tags, resp) if isinstance(t, tuple) and t[0] == "wit" and r.startswith("1|0")))
             names = core.names_for(c["n"])
             ctx.sample({"base": [core.cond_text((b, a), names) for _, b, a in c["base"]],
                         "queries": [core.cond_text((b, a), names) for _, b, a in c["queries"]], "answers": impl["answers"],
                         "cube": resp[tags.index("cube")], "vMin": impl.get("vMin"), "fMin": impl.get("fMin")})
-        for f in compare(c, impl, resp, tags):
+        fs = compare(c, impl, resp, tags)
+        for i, x in (impl.get("cert") or {}).items():
+            if x["status"] == "ok":
+                ctx.bump("true_certified" if impl.get("cert_true", {}).get(i) else "true_certificate_rejected_by_driver")
+                ctx.bump("certificate_choice_combinations", x["choices"])
+            elif x["status"] in ("cap", "unknown"):
+                ctx.bump("true_uncertified")
+                ctx.bump("true_uncertified:" + x["status"])
+        for f in fs:
             ctx.fail(f, shrink)
